@@ -318,8 +318,8 @@ theorem updateState_revs {s s' : St} {m : UpdMsg} {r : Rollapp} (hi : Fork.Inv s
                         have hlast := ((updSucc_ne_iff r m).1 hb).1
                         have := onProposerLastBlock_revs
                           (s := setSeq (setRa s { r with states := r.states ++ [newSInfo s m (updSucc r m)] })
-                            { prop with dishonor := prop.dishonor - min s.p.dishonorSU prop.dishonor })
-                          (q := { prop with dishonor := prop.dishonor - min s.p.dishonorSU prop.dishonor })
+                            { prop with dishonor := prop.dishonor - min s.sqp.dishonorSU prop.dishonor })
+                          (q := { prop with dishonor := prop.dishonor - min s.sqp.dishonorSU prop.dishonor })
                           (r := { r with states := r.states ++ [newSInfo s m (updSucc r m)] })
                           (l := newSInfo s m (updSucc r m)) hca
                           (by show getRa (setRa s _) prop.rollapp = _; rw [hqr]; exact hga)
